@@ -95,7 +95,7 @@ func (ns *nameSet) fresh(r *fw.Rand, o *GenOpts) []string {
 			ws = append(ws, fmt.Sprintf("x%d", len(ns.used)))
 		}
 		key := strings.Join(ws, "")
-		if ns.used[key] || !UniqueSegmentation(ws) {
+		if ns.used[key] || !UniqueSegmentation(ws) || KnownC19Finding(ws) {
 			continue
 		}
 		ns.used[key] = true
